@@ -28,4 +28,29 @@ def windowAccepted (headerWindow maxWindowSize : Nat) : Bool := decide (effectiv
 def neededBuffers (headerWindow : Nat) (fcs : Option Nat) (blockSizeMax : Nat) : Nat :=
   max blockSizeMax 4 + decodingBufferSize (effectiveWindow headerWindow) fcs blockSizeMax
 
+/-- what the zdss_loadHeader stage decides for a frame -/
+inductive Verdict where
+  /-- content size known, the caller's output room holds it and the whole frame is in this call's input: decoded by the
+  single-call decoder straight into the caller's buffer, no internal buffer involved, the window limit is not consulted -/
+  | singlePass
+  | buffered (inBuff outBuff : Nat)
+  | refused
+deriving DecidableEq, Repr
+
+def singlePassOk (fcs : Option Nat) (outAvail : Nat) (wholeFrameInInput : Bool) : Bool :=
+  match fcs with
+  | some n => decide (n ≤ outAvail) && wholeFrameInInput
+  | none => false
+
+def loadHeader (headerWindow : Nat) (fcs : Option Nat) (blockSizeMax maxWindowSize outAvail : Nat) (whole : Bool) : Verdict :=
+  if singlePassOk fcs outAvail whole then .singlePass
+  else if windowAccepted headerWindow maxWindowSize then
+    .buffered (max blockSizeMax 4) (decodingBufferSize (effectiveWindow headerWindow) fcs blockSizeMax)
+  else .refused
+
+/-- bytes of internal buffers held after the decision -/
+def held : Verdict → Nat
+  | .buffered a b => a + b
+  | _ => 0
+
 end ZstdVerif.DBuf
